@@ -9,9 +9,9 @@ import (
 // validated; SigRuleTrace must flag exactly the corrupted lines, with the expected monitor.
 func (r *runner) SelfTest() error {
 	u := r.us[0]
-	genuine := Case{F: "gnosis", N: 2, T: 2, Signers: []int{0, 1}, Sigs: []Sig{{"ok", 0, ""}, {"ok", 1, ""}}, Mut: "", Ann: []string{"S"}}
-	forged := Case{F: "gnosis", N: 2, T: 2, Signers: []int{0, 1}, Sigs: []Sig{{"ok", 0, ""}, {"ok", 2, ""}}, Mut: "", Ann: []string{"S"}}
-	empty := Case{F: "service", N: 2, T: 2, Signers: []int{}, Sigs: []Sig{}, Mut: "", Ann: []string{"S"}}
+	genuine := Case{F: "gnosis", N: 2, T: 2, Signers: []int{0, 1}, Sigs: []Sig{{"ok", 0, ""}, {"ok", 1, ""}}, Mut: "", Ann: []string{"S"}, Key: "before"}
+	forged := Case{F: "gnosis", N: 2, T: 2, Signers: []int{0, 1}, Sigs: []Sig{{"ok", 0, ""}, {"ok", 2, ""}}, Mut: "", Ann: []string{"S"}, Key: "before"}
+	empty := Case{F: "service", N: 2, T: 2, Signers: []int{}, Sigs: []Sig{}, Mut: "", Ann: []string{"S"}, Key: "before"}
 	tg := Targets{Fn: true}
 	a, b, e := RunCase(u, &genuine, tg, nil), RunCase(u, &forged, tg, nil), RunCase(u, &empty, tg, nil)
 	if a.Obs[0].R != "accept" || b.Obs[0].R != "reject" || e.Obs[0].R != "accept" {
@@ -44,7 +44,7 @@ func (r *runner) SelfTest() error {
 	got := map[string]bool{}
 	for _, f := range v.Findings {
 		for i := range lines {
-			if lines[i].C.Key() == f.Line.C.Key() && fmt.Sprint(lines[i].Obs) == fmt.Sprint(f.Line.Obs) {
+			if lines[i].C.CKey() == f.Line.C.CKey() && fmt.Sprint(lines[i].Obs) == fmt.Sprint(f.Line.Obs) {
 				got[fmt.Sprintf("%d/%s", i+1, f.Monitor)] = true
 			}
 		}
